@@ -1,5 +1,6 @@
 """Analysis primitives over the MIR model: value origins (P7/P12), branch predicates and dominating
 guards (P3), must-pass (P2), dispatch tables (P4), event graphs (P5), field writers (P9)."""
+import re
 from collections import defaultdict
 
 from .model import Operand, Place
@@ -26,6 +27,21 @@ def local_defs(fn):
             d[t.dest.local].append((b.idx, kind, t))
     fn._defs = d
     return d
+
+
+def mut_borrowed(fn):
+    """locals of which a `&mut` (or raw mut) reference to the whole local or a field is taken"""
+    if getattr(fn, "_mutb", None) is not None:
+        return fn._mutb
+    out = set()
+    for b in fn.blocks:
+        for s in b.stmts:
+            if s.rv is not None and s.rv.k in ("ref", "rawptr") and s.rv.place is not None:
+                if s.rv.j.get("bk") == "mut" or "Mut" in str(s.rv.j.get("rk", "")):
+                    if "*" not in s.rv.place.proj:
+                        out.add(s.rv.place.local)
+    fn._mutb = out
+    return out
 
 
 class Origin:
@@ -115,8 +131,18 @@ def short(path):
     return "::".join(parts[-2:])
 
 
+_PROMO = re.compile(r"::promoted\[(\d+)\]\}?$")
+
+
 def origin_of_operand(fn, op, depth=12, _seen=None):
     if op.kind in ("const", "other"):
+        txt = op.const.get("text", "") if op.const else ""
+        m = _PROMO.search(txt)
+        if m and op.const.get("k") in ("unknown", "indirect", "ptr", "scalar", None) and fn.promoted:
+            i = int(m.group(1))
+            if i < len(fn.promoted):
+                pf = fn.promoted_fn(i)
+                return Origin("ref", "promoted", [origin_of_local(pf, 0, depth).strip()])
         return Origin("const", op.const)
     return origin_of_place(fn, op.place, depth, _seen)
 
@@ -153,6 +179,9 @@ def origin_of_local(fn, l, depth=12, _seen=None):
             return Origin("arg", {"idx": l, "name": name or "_%d" % l, "ty": fn.locals[l]["ty"]})
     if depth <= 0 or l in _seen:
         return Origin("var", {"local": l, "name": name})
+    if name is not None and l in mut_borrowed(fn):
+        # a user variable whose address is taken mutably may change behind our back
+        return Origin("var", {"local": l, "name": name, "mut_borrowed": True})
     defs = [d for d in local_defs(fn).get(l, []) if d[1] != "partial"]
     if len(defs) == 0:
         return Origin("var", {"local": l, "name": name, "undef": True})
@@ -545,20 +574,29 @@ class EventGraph:
         return sorted((nm(a), str(l), nm(b)) for a, l, b in self.edges)
 
 
-def event_graph(fn, role_of, ret_local=0, max_states=20000):
+def event_graph(fn, role_of, ret_local=0, max_states=40000, branch_role=None, stmt_role=None):
     """Quotient of the CFG on event blocks.
     role_of(term) -> role string or None for call terminators.
+    branch_role(fn, bb, origin) -> role for switch terminators that are events themselves (their value labels the out-edges).
+    stmt_role(fn, bb, stmt) -> role for statements that are (outcome-less) events.
     Edge labels: the outcome of the *source* event as decided by switches on its result before the
-    next event: tuple of (value,...) e.g. '1' / '0' / 'else'; '' when no switch on the result intervenes.
+    next event: comma-joined values e.g. '1' / '0' / 'else'; '' when no switch on the result intervenes.
     Return nodes carry the abstract value last assigned to _0 on the path: constant, 'ev:<role>' when
-    it is (a copy of) an event result, 'var:<name>', or '?'"""
+    it is (a copy of) an event result, 'var:<name>', 'agg:<Adt::Variant>' or '?'"""
     g = EventGraph()
     ev_blocks = {}
     for b, t in fn.calls():
         r = role_of(t)
         if r is not None:
             ev_blocks[b] = r
-    # state: (block, srcnode, aliases of source result (frozenset of locals), label so far, retval desc)
+    br_roles = {}
+    if branch_role is not None:
+        for b in fn.reachable():
+            t = fn.blocks[b].term
+            if t.k == "switch":
+                r = branch_role(fn, b, switch_pred(fn, b))
+                if r is not None:
+                    br_roles[b] = r
     start = ("ENTRY", frozenset(), "", None)
     work = [(0, start)]
     seen = set()
@@ -575,8 +613,13 @@ def event_graph(fn, role_of, ret_local=0, max_states=20000):
             raise RuntimeError("event graph state cap hit in %s" % fn.path)
         blk = fn.blocks[bb]
         aliases = set(aliases)
-        # statements: track aliases of the source result and assignments to the return place
-        for s in blk.stmts:
+        for si, s in enumerate(blk.stmts):
+            if stmt_role is not None:
+                r = stmt_role(fn, bb, s)
+                if r is not None:
+                    node = ("ev", bb * 1000 + si, r)
+                    g.add(src, label, node)
+                    src, label, aliases = node, "", set()
             if s.k != "assign" or s.rv is None:
                 continue
             if s.lhs.is_local():
@@ -594,7 +637,6 @@ def event_graph(fn, role_of, ret_local=0, max_states=20000):
                 elif l in aliases:
                     aliases.discard(l)
                 if rv.k == "un" and rv.j["op"] == "Not" and rv.ops[0].place is not None and rv.ops[0].place.is_local() and rv.ops[0].place.local in aliases:
-                    # negation of the result: keep as alias with a marker (labels flip is not tracked; mark)
                     aliases.add(l)
                     if l == ret_local:
                         retv = "not(ev:%s)" % (src[2] if src != "ENTRY" else "?")
@@ -614,6 +656,12 @@ def event_graph(fn, role_of, ret_local=0, max_states=20000):
             g.add(src, label, ("ret", retv if retv is not None else "?"))
             continue
         if t.k == "switch":
+            if bb in br_roles:
+                node = ("ev", bb, br_roles[bb])
+                g.add(src, label, node)
+                for lab, tgt in switch_edges(fn, bb):
+                    work.append((tgt, (node, frozenset(), str(lab), retv)))
+                continue
             on_result = t.discr.place is not None and t.discr.place.is_local() and t.discr.place.local in aliases
             for lab, tgt in switch_edges(fn, bb):
                 if on_result:
@@ -623,7 +671,6 @@ def event_graph(fn, role_of, ret_local=0, max_states=20000):
                 work.append((tgt, (src, frozenset(aliases), nl, retv)))
             continue
         if t.k == "call":
-            # non-event call: its result kills aliases of dest
             if t.dest is not None and t.dest.is_local():
                 aliases.discard(t.dest.local)
                 if t.dest.local == ret_local:
@@ -631,8 +678,8 @@ def event_graph(fn, role_of, ret_local=0, max_states=20000):
             if t.target is not None:
                 work.append((t.target, (src, frozenset(aliases), label, retv)))
             continue
-        for s in fn.succs(bb):
-            work.append((s, (src, frozenset(aliases), label, retv)))
+        for s2 in fn.succs(bb):
+            work.append((s2, (src, frozenset(aliases), label, retv)))
     return g
 
 
@@ -657,7 +704,7 @@ def abstract_value(fn, s, aliases, src, ev_blocks):
     if rv.k == "agg":
         j = rv.j
         if j.get("ak") == "adt":
-            return "agg:%s::%s" % (short(j["adt"]), j["variant"])
+            return "agg:%s::%s" % (j["adt"].split("::")[-1], j["variant"])
     return "?"
 
 
